@@ -47,6 +47,13 @@ func c09Corruptions(rec []byte) map[string][]byte {
 	for i := 1; i < len(rec); i++ {
 		m[fmt.Sprintf("truncated@%d", i)] = rec[:i]
 	}
+	// every single bit of the record flipped (a damaged record which still decodes is still the record of a revoked
+	// certificate, or an error - whatever field the damage hit)
+	for i := 0; i < len(rec)*8; i++ {
+		d := append([]byte{}, rec...)
+		d[i/8] ^= 1 << (uint(i) % 8)
+		m[fmt.Sprintf("bitflip@%d", i)] = d
+	}
 	return m
 }
 
@@ -175,6 +182,75 @@ func c09Physical(chk *fw.Check, c *c08Cast, tier string) (evals, nontrivial int)
 	return
 }
 
+// c09LostStaging: the store is missing after a swap which could not take place - the staging directory of a refresh
+// disappears (somebody swept the work_dir) at one of the renames of the swap. With crl_cdp_strict on and the origin
+// down afterwards, the listed certificate must not be accepted: either a list is still in force (revoked) or nothing is
+// (error).
+func c09LostStaging(chk *fw.Check, c *c08Cast) (evals int) {
+	listed := c.probes[0]
+	for nth := 1; nth <= 3; nth++ {
+		for _, when := range []string{"rename", "rename.done"} {
+			evals++
+			var v, again Verdict
+			fired := false
+			res := seqWorld(func() {
+				w := NewCW(CWOpt{Disk: true, SigMode: config.SignatureValidationModeVerify, Strict: true})
+				defer os.RemoveAll(w.Dir)
+				if err := w.Provision(); err != nil {
+					panic(err)
+				}
+				vsched.Drain()
+				w.Net.Serve(urlA, "v1", c.vers[1])
+				if x := w.Lookup(listed, c.chain(listed)); !x.Revoked {
+					panic("c09 lost staging: setup " + x.String() + x.Err)
+				}
+				w.Net.Serve(urlA, "v2", c.vers[2])
+				n := 0
+				vsched.EffectHook = func(kind, arg string) error {
+					if kind == when && !fired {
+						n++
+						if n == nth {
+							fired = true
+							ents, _ := os.ReadDir(w.Dir)
+							for _, e := range ents {
+								if e.IsDir() && strings.HasPrefix(e.Name(), "crl_") && strings.HasSuffix(e.Name(), "_tmp") {
+									os.RemoveAll(filepath.Join(w.Dir, e.Name()))
+								}
+							}
+						}
+					}
+					return nil
+				}
+				w.Chk.VerifUpdateCRLs(true)
+				vsched.Drain()
+				vsched.EffectHook = nil
+				w.Net.Down(urlA)
+				v = w.Lookup(listed, c.chain(listed))
+				again = w.Lookup(listed, c.chain(listed))
+				w.Chk.Cleanup()
+			})
+			vsched.EffectHook = nil
+			if !fired {
+				continue
+			}
+			label := fmt.Sprintf("staging directory removed at %s #%d of the refresh", when, nth)
+			if res.Verdict != vsched.OK {
+				chk.Violation("C09|panic|lost-staging-directory", label+": "+res.Verdict.String()+" "+firstLines(res.Detail, 4), nil)
+				continue
+			}
+			c09PhysOutcomes["lost staging directory: "+v.String()+" then "+again.String()]++
+			for _, x := range []Verdict{v, again} {
+				if x.Panic != "" {
+					chk.Violation("C09|panic|lost-staging-directory", label+": "+x.Panic, nil)
+				} else if x.Err == "" && !x.Revoked {
+					chk.Violation("C09|listed-accepted-after-lost-staging-directory", label+" (crl_cdp_strict on, origin down afterwards): the listed certificate is accepted without error", nil)
+				}
+			}
+		}
+	}
+	return
+}
+
 // RunC09 is the entry point of the C09 check.
 func RunC09(tier string, args []string) int {
 	if len(args) > 0 && args[0] == "worker" {
@@ -187,7 +263,7 @@ func RunC09(tier string, args []string) int {
 	}
 	chk := fw.NewCheck("C09", tier, "model_checking")
 	chk.Assumptions = []string{
-		"fault model: one storage fault per lookup - database handle closed, injected read error at Db.Get (generic I/O error, table file vanished = ENOENT, corrupted block, short read, EACCES), stored record replaced (empty, 1 byte, truncated at every byte, tag flipped, other type), on both backends where the fault exists; plus all interleavings of a handshake with Cleanup and with a refresh whose directory swap fails",
+		"fault model: one storage fault per lookup - database handle closed, injected read error at Db.Get (generic I/O error, table file vanished = ENOENT, corrupted block, short read, EACCES), stored record replaced (empty, 1 byte, truncated at every byte, every single bit flipped, tag flipped, other type), on both backends where the fault exists; plus all interleavings of a handshake with Cleanup and with a refresh whose directory swap fails",
 		"a lookup that starts after Cleanup returned is outside the validator's life cycle and is not judged",
 	}
 	c := newC08Cast()
@@ -377,6 +453,9 @@ func RunC09(tier string, args []string) int {
 	physEvals, physNoticed := c09Physical(chk, c, tier)
 	evals += physEvals
 	nontrivial += physNoticed
+	lost := c09LostStaging(chk, c)
+	evals += lost
+	nontrivial += lost
 	// schedule scenarios
 	bound, maxExec := 2, 200000
 	perScenario, nshards := 100*time.Second, 16
